@@ -2258,6 +2258,34 @@ evutil_inet_pton_scope(int af, const char *src, void *dst, unsigned *indexp)
 	return r;
 }
 
+#if !(defined(EVENT__HAVE_INET_PTON) && !defined(USE_INTERNAL_PTON))
+/* Parse exactly four decimal components (digits only; leading zeros are
+ * allowed) separated by dots and followed by the end of the string.
+ * sscanf("%u") would also accept leading whitespace and signs, and wraps
+ * around on overflow. */
+static int
+evutil_parse_ipv4_text_(const char *s, unsigned out[4])
+{
+	int i;
+	for (i = 0; i < 4; ++i) {
+		unsigned v = 0;
+		if (!EVUTIL_ISDIGIT_(*s))
+			return 0;
+		while (EVUTIL_ISDIGIT_(*s)) {
+			v = v * 10 + (unsigned)(*s - '0');
+			if (v > 255)
+				return 0;
+			++s;
+		}
+		out[i] = v;
+		if (*s != (i < 3 ? '.' : '\0'))
+			return 0;
+		++s;
+	}
+	return 1;
+}
+#endif
+
 int
 evutil_inet_pton(int af, const char *src, void *dst)
 {
@@ -2265,16 +2293,11 @@ evutil_inet_pton(int af, const char *src, void *dst)
 	return inet_pton(af, src, dst);
 #else
 	if (af == AF_INET) {
-		unsigned a,b,c,d;
-		char more;
+		unsigned v[4];
 		struct in_addr *addr = dst;
-		if (sscanf(src, "%u.%u.%u.%u%c", &a,&b,&c,&d,&more) != 4)
+		if (!evutil_parse_ipv4_text_(src, v))
 			return 0;
-		if (a > 255) return 0;
-		if (b > 255) return 0;
-		if (c > 255) return 0;
-		if (d > 255) return 0;
-		addr->s_addr = htonl((a<<24) | (b<<16) | (c<<8) | d);
+		addr->s_addr = htonl((v[0]<<24) | (v[1]<<16) | (v[2]<<8) | v[3]);
 		return 1;
 #ifdef AF_INET6
 	} else if (af == AF_INET6) {
@@ -2288,26 +2311,18 @@ evutil_inet_pton(int af, const char *src, void *dst)
 		else if (!dot)
 			eow = src+strlen(src);
 		else {
-			unsigned byte1,byte2,byte3,byte4;
-			char more;
+			unsigned v[4];
 			for (eow = dot-1; eow >= src && EVUTIL_ISDIGIT_(*eow); --eow)
 				;
 			++eow;
 
-			/* We use "scanf" because some platform inet_aton()s are too lax
-			 * about IPv4 addresses of the form "1.2.3" */
-			if (sscanf(eow, "%u.%u.%u.%u%c",
-					   &byte1,&byte2,&byte3,&byte4,&more) != 4)
+			/* Some platform inet_aton()s are too lax about IPv4
+			 * addresses of the form "1.2.3" */
+			if (!evutil_parse_ipv4_text_(eow, v))
 				return 0;
 
-			if (byte1 > 255 ||
-			    byte2 > 255 ||
-			    byte3 > 255 ||
-			    byte4 > 255)
-				return 0;
-
-			words[6] = (byte1<<8) | byte2;
-			words[7] = (byte3<<8) | byte4;
+			words[6] = (v[0]<<8) | v[1];
+			words[7] = (v[2]<<8) | v[3];
 			setWords += 2;
 		}
 
